@@ -155,7 +155,8 @@ Definition mntm_apply (c : mcfg) (a : malt) : mcfg :=
 Definition mntm_expand (m : mntm) (c : mcfg) : res mcfg + list mcfg :=
   match mt_delta m (fst c) (map t_read (snd c)) with
   | None => if memb (fst c) (mt_finals m) then inl (Ok c) else inr []
-  | Some [] => inl (Err IndexErr)                         (* possible_transitions[0] *)
+  | Some [] => if memb (fst c) (mt_finals m) then inl (Ok c) else inr []   (* `if not possible_transitions` (repaired code):
+                                                             an entry with no alternative is no transition *)
   | Some (a0 :: rest) => inr (map (mntm_apply c) rest ++ [mntm_apply c a0])
   end.
 
